@@ -427,6 +427,110 @@ pub fn run(tier: &str, seed: u64, outdir: &str) {
             }
         }
     }
+    // ---------- leaf preservation, every document type ----------
+    // every string / number leaf of a valid document is replaced in turn by other values of the same JSON type;
+    // when the edited document is still readable, writing it back must give the edited document
+    {
+        fn leaves(v: &Value, cur: &mut Vec<String>, out: &mut Vec<(Vec<String>, bool)>) {
+            match v {
+                Value::Object(o) => {
+                    for (k, x) in o {
+                        cur.push(k.clone());
+                        leaves(x, cur, out);
+                        cur.pop();
+                    }
+                }
+                Value::Array(a) => {
+                    for (i, x) in a.iter().enumerate().take(3) {
+                        cur.push(i.to_string());
+                        leaves(x, cur, out);
+                        cur.pop();
+                    }
+                }
+                Value::String(s) if s.len() < 60 => out.push((cur.clone(), true)),
+                Value::Number(_) => out.push((cur.clone(), false)),
+                _ => {}
+            }
+        }
+        fn at<'a>(v: &'a mut Value, p: &[String]) -> Option<&'a mut Value> {
+            let mut x = v;
+            for k in p {
+                x = match x {
+                    Value::Object(o) => o.get_mut(k)?,
+                    Value::Array(a) => a.get_mut(k.parse::<usize>().ok()?)?,
+                    _ => return None,
+                };
+            }
+            Some(x)
+        }
+        type Rt = fn(&Value) -> Option<Value>;
+        fn rt<T: Serialize + DeserializeOwned>(d: &Value) -> Option<Value> {
+            serde_json::to_value(serde_json::from_value::<T>(d.clone()).ok()?).ok()
+        }
+        let flow_docs = std::panic::catch_unwind(std::panic::AssertUnwindSafe(|| -> Option<Vec<(&'static str, Rt, Value)>> {
+            let offer = issuer::create_credential_offer(cd.schema_id.as_str().try_into().ok()?, cd.cred_def_id.as_str().try_into().ok()?, &cd.kcp).ok()?;
+            let (req, md) = prover::create_credential_request(Some("entropy"), None, &cd.cred_def, &ls, "ls", &offer).ok()?;
+            let preq = json!({"nonce": "4711", "name": "r", "version": "0.1", "ver": "2.0",
+                "requested_attributes": {"a": {"name": "Name", "non_revoked": {"from": 10, "to": 20}, "restrictions": [{"schema_name": "007", "attr::zip code::value": " 7"}]}, "g": {"names": ["age", "Zip Code"]}},
+                "requested_predicates": {"p": {"name": "AGE", "p_type": ">=", "p_value": 18, "restrictions": {"$or": [{"cred_def_id": "x"}, {"issuer_id": {"$in": ["1", "01"]}}]}}}, "non_revoked": {"to": 30}});
+            Some(vec![
+                ("Schema", rt::<Schema> as Rt, serde_json::to_value(&cd.schema).ok()?),
+                ("CredentialOffer", rt::<anoncreds::types::CredentialOffer>, serde_json::to_value(&offer).ok()?),
+                ("CredentialRequest", rt::<anoncreds::types::CredentialRequest>, serde_json::to_value(&req).ok()?),
+                ("CredentialRequestMetadata", rt::<anoncreds::types::CredentialRequestMetadata>, serde_json::to_value(&md).ok()?),
+                ("RevocationRegistryDefinition", rt::<RevocationRegistryDefinition>, serde_json::to_value(&reg.def).ok()?),
+                ("RevocationStatusList", rt::<RevocationStatusList>, ldoc.clone()),
+                ("PresentationRequest", rt::<PresentationRequest>, preq),
+            ])
+        }));
+        let strings = ["00501", "+5", "-0", " 7", "7 ", "Ab C", "1e3", "", "true", "0x10", "Zoë", "2.0"];
+        let numbers = [json!(0), json!(1), json!(2147483648u64), json!(18446744073709551615u64)];
+        if let Ok(Some(list)) = flow_docs {
+            for (ty, f, doc0) in list.iter() {
+                // start from the form the library itself writes (a fixpoint of read-then-write), so that every
+                // difference seen below is due to the edited leaf
+                let Some(doc) = f(doc0) else { continue };
+                if f(&doc).map(normalise) != Some(normalise(doc.clone())) {
+                    out.note(format!("leaf preservation: the written form of {} is not a fixpoint of read-then-write; type skipped", ty));
+                    continue;
+                }
+                let doc = &doc;
+                let mut ls_: Vec<(Vec<String>, bool)> = vec![];
+                leaves(doc, &mut vec![], &mut ls_);
+                for (path, is_str) in ls_.iter() {
+                    let alts: Vec<Value> = if *is_str { strings.iter().map(|x| json!(x)).collect() } else { numbers.to_vec() };
+                    for alt in alts {
+                        let mut d = doc.clone();
+                        let Some(x) = at(&mut d, path) else { continue };
+                        if *x == alt {
+                            continue;
+                        }
+                        *x = alt.clone();
+                        let res = std::panic::catch_unwind(|| f(&d));
+                        let (same, o) = match res {
+                            Ok(Some(back)) => (normalise(back) == normalise(d.clone()), "read"),
+                            // a value this field does not admit: nothing to preserve
+                            Ok(None) => {
+                                out.bump("leaf:refused");
+                                continue;
+                            }
+                            Err(_) => (false, "panic"),
+                        };
+                        if !same && std::env::var("AVH_DEBUG").is_ok() {
+                            eprintln!("LEAFDIFF {} {:?} := {}", ty, path, alt);
+                        }
+                        let id = out.next_id();
+                        let stage = format!("leaf:{}:={}", path.join("/"), alt);
+                        out.case(
+                            &format!("(C15 {} H {} {} {} {} {})", id, sx::s(ty), sx::s(&stage), sx::boolean(same), sx::s("read"), sx::s(o)),
+                            "hop:leaf-preservation",
+                            || json!({"type": ty, "path": path, "value": alt, "same_document": same, "outcome": o}),
+                        );
+                    }
+                }
+            }
+        }
+    }
     let _ = std::fs::remove_dir_all(&tails);
     out.finish();
 }
